@@ -35,10 +35,15 @@ Inductive aloc :=
                                      "[]" = elements) of an object whose static type is [ty] *)
 | LCaptured (fn v : string).      (* variable [v] of function [fn], accessed from a nested function literal *)
 
+(* What a sync/atomic access does: Load, Store, or a read-modify-write that is ONE atomic operation
+   (Add, Swap, CompareAndSwap, And, Or).  ANone for ordinary accesses. *)
+Inductive aop := ANone | ALoad | AStore | ARMW.
+
 Record site := mkSite {
   s_loc : aloc;
   s_write : bool;      (* assignment, ++/--, op=, address taken, reference handed to a callee outside the module *)
   s_atomic : bool;     (* the access is performed by a sync/atomic function *)
+  s_aop : aop;
   s_base : base;
   s_own : bool;        (* captured variables only: the accessing literal cannot outlive the invocation that
                           created the variable, so the instance accessed was created by the accessing thread *)
@@ -158,6 +163,10 @@ Inductive conflict :=
 | CRootMissing (k : kind) (r : string)       (* a root is not in the reach set or is not a function of the program *)
 | CNoRoots (k : kind)                        (* vacuity guard: the entry points were not found *)
 | CGlobalOfLocalType (g ty : string)         (* a package-level variable holds an object of a thread-local type *)
+| CAtomicRMW (k : kind) (entry : string) (f1 : string) (s1 : site) (f2 : string) (s2 : site)
+                                             (* one call of [entry] can atomically LOAD a shared location (s1) and separately
+                                                atomically STORE it (s2): a read-modify-write that is not one atomic operation;
+                                                two threads can both load before either stores (lost update) *)
 | CLocalInShared (holder member ty : string). (* an object shared between parses (or a closure of the graph) holds an
                                                 object of a thread-local type: the classification table cannot be right *)
 
@@ -209,6 +218,50 @@ Definition wf_defects (p : prog) : list conflict :=
               end) (p_holders p).
 
 Definition conflicts (p : prog) : list conflict := wf_defects p ++ closure_defects p ++ race_conflicts p.
+
+(* ------------------------------------------------------------------------------------- *)
+(* A second, separately named obligation: every update of a shared location is ONE atomic operation.
+
+   Data-race freedom says nothing about a counter that is read with atomic.Load and written back with
+   atomic.Store: every access is atomic, no data race, and yet two threads can both load the old value
+   before either stores (the two Memoize calls then get the SAME parser index).  The check: for every
+   entry point h of a kind of thread (one API call: for constructor threads every function), the functions
+   call-reachable from h must not contain both an atomic Load site and an atomic Store site of the same
+   shared location.  (Load + CompareAndSwap retry loops and single Add/Swap operations are fine.) *)
+
+Definition reach_from (p : prog) (rs : list string) : list string :=
+  closure (S (length rs + total_edges p + length (p_funcs p))) p [] rs.
+
+Definition closedb (p : prog) (rs set : list string) : bool :=
+  forallb (fun r => mem r set) rs &&
+  forallb (fun fn => if mem (f_name fn) set then forallb (fun g => mem g set) (f_calls fn) else true) (p_funcs p).
+
+Definition all_sites (p : prog) : list (string * site) :=
+  flat_map (fun fn => map (pair (f_name fn)) (f_sites fn)) (p_funcs p).
+
+Definition is_load (s : site) : bool := match s_aop s with ALoad => true | _ => false end.
+Definition is_store (s : site) : bool := match s_aop s with AStore => true | _ => false end.
+
+(* (load site, store site) on the same location, both shared for kind k, anywhere in the program *)
+Definition split_pairs (p : prog) (k : kind) : list ((string * site) * (string * site)) :=
+  let shared := filter (fun fs => sharedb k (snd fs)) (all_sites p) in
+  flat_map (fun l => flat_map (fun st => if aloc_eqb (s_loc (snd l)) (s_loc (snd st)) then [(l, st)] else [])
+                              (filter (fun fs => is_store (snd fs)) shared))
+           (filter (fun fs => is_load (snd fs)) shared).
+
+Definition atomic_update_defects (p : prog) : list conflict :=
+  flat_map (fun k =>
+    match split_pairs p k with
+    | [] => []                      (* no location is both atomically loaded and atomically stored: nothing to do *)
+    | prs =>
+        flat_map (fun h =>
+          let set := reach_from p [h] in
+          (if closedb p [h] set then [] else [CUnclosed k h h]) ++
+          flat_map (fun pr : (string * site) * (string * site) =>
+                      if mem (fst (fst pr)) set && mem (fst (snd pr)) set
+                      then [CAtomicRMW k h (fst (fst pr)) (snd (fst pr)) (fst (snd pr)) (snd (snd pr))] else [])
+                   prs) (roots p k)
+    end) [KParse; KCtor].
 
 (* Diagnostics only (not part of the obligation): object types with an access that is reachable from
    the parse roots and that appear in neither table.  They are treated as shared. *)
@@ -300,6 +353,21 @@ Fixpoint consistent_na (m : memory) (tr : list event) : Prop :=
   | [] => True
   | e :: r => (e_write e = false -> e_atomic e = false -> e_val e = m (e_loc e)) /\ consistent_na (step_mem m e) r
   end.
+
+(* What the second obligation buys.  [increments l m tr]: every write to location l in the trace is an
+   atomic increment of the value l holds at that moment (this is what atomic.AddInt32(&l, 1) does; a Load followed
+   by a separate Store is NOT such an event, it is a read event and, later, a write event of a stale value + 1).
+   [draws l tr]: the values the increments returned, in trace order. *)
+Fixpoint increments (l : cloc) (m : memory) (tr : list event) : Prop :=
+  match tr with
+  | [] => True
+  | e :: r => (e_write e = true -> e_loc e = l -> e_val e = (m l + 1)%N) /\ increments l (step_mem m e) r
+  end.
+
+Definition is_write_at (l : cloc) (e : event) : bool :=
+  e_write e && (if cloc_eq_dec (e_loc e) l then true else false).
+
+Definition draws (l : cloc) (tr : list event) : list N := map e_val (filter (is_write_at l) tr).
 
 (* Deterministic thread code: the next access as a function of the values read so far (latest first);
    None = finished.  For a write the value written is given by the code. *)
